@@ -1,7 +1,7 @@
 import re
 from concurrent.futures import ThreadPoolExecutor
 
-from harness.common import Prop, canon, case_hash, run_driver
+from harness.common import Prop, canon, case_hash, run_driver, scale
 from harness.progprop import ProgProp
 from harness import gen_build as G
 from harness import cxx_run as X
@@ -38,8 +38,8 @@ class C11(ProgProp):
     def extra(self, ctx):
         rng, tier = ctx['rng'], ctx['tier']
         known = {k['id']: k for k in ctx['known']}
-        nprog = 4 if tier == 'quick' else 24
-        runs_per = 6 if tier == 'quick' else 40
+        nprog = 4 if tier == 'quick' else scale(32)
+        runs_per = 6 if tier == 'quick' else scale(60)
         cases = []
         tries = 0
         while len(cases) < nprog and tries < 2000:
